@@ -100,6 +100,10 @@ func execute(t *testing.T, eng *Engine, seed uint64, wl, sch *Tape) (res RunResu
 		}()
 		if eng.NoBubble {
 			body(t)
+		} else if raceBuild {
+			// with the race detector a reported race makes synctest.Test call FailNow on its caller: give it a subtest
+			// of its own so that only that goroutine ends and the worker goes on to report the violation
+			t.Run("bubble", func(t *testing.T) { synctest.Test(t, body) })
 		} else {
 			synctest.Test(t, body)
 		}
@@ -304,6 +308,9 @@ func reportViolation(t *testing.T, eng *Engine, outDir string, res RunResult) st
 		}
 	}
 	rf.Repro = fmt.Sprintf("original tapes %d/2", ok)
+	if res.Viol.Clause == "data-race" {
+		rf.Repro = "race reports are emitted once per process: confirmed by the driver in fresh processes"
+	}
 	best := res
 	if ok == 2 && os.Getenv("VERIF_NOSHRINK") == "" {
 		wl, sch, r := shrink(t, eng, res.Seed, res.WL, res.SCH, class, 45*time.Second)
